@@ -94,7 +94,7 @@ func RunUsable(e *Env) {
 		"after every phase, with servers answering instantly, a probe RPC with a fresh context to every node (3 attempts); distinct = phase parameters; non-trivial = >=2 calls with cancellation or streaming"
 	R.Assume("a first probe attempt may legitimately fail with 'stream is down' while the stream is being re-created; a node is unusable only if 3 attempts fail or a probe stays parked (hang rule)")
 	rng := e.Rand(9)
-	nphase := e.Pick(120, 3000)
+	nphase := e.Pick(120, 6000)
 	var phases []usablePhase
 	// directed scripts first
 	for rep := 0; rep < e.Pick(6, 40); rep++ {
